@@ -18,10 +18,10 @@ import (
 func c18Main(c *Ctx) {
 	r := c.R
 	r.Explain = "Decided statically: (R1) a census of every potential run-time panic site (index, slice, unchecked type assertion, explicit panic, integer division, dereference of a map element or of a per-machine payload pointer, panicking constructors, process exits) in the module code reachable through the VTA call graph from Poll/ProcessMessage, the 20 HTTP handlers and the airgapped machine's ProcessOperation/ReplayOperationsLog/GetOperationResult and the airgapped prompt commands that feed them; each site is proved safe by a dominating guard, proved by the payload typestate argument over the extracted transition tables, or matched to a reviewed entry whose stated premise is re-checked on the current source; anything else is a violation. " +
-			"(R2) in processMessage, reinitDKG, Machine.ProcessOperation and the master-key handler no call that writes durable state or posts to the board is followed on any path by a step that can still reject the input (a fallible call that is not itself storage I/O), except reviewed steps; " +
-			"(R3) the poller and the airgapped prompt keep running after a failing input: the error of ProcessMessage / of a prompt command reaches no return, and no log.Fatal/os.Exit is reachable from the input handlers; " +
-			"(R4) every FSM callback whose request type has a Validate method reads the request's fields only after Validate returned nil. " +
-			"NOT decided: panics inside dependencies (kyber on malformed points, leveldb, echo, encoding/json), nil dereferences other than map elements and the three payload pointers, resource exhaustion, and everything a fuzzer would search for beyond these shapes."
+		"(R2) in processMessage, reinitDKG, Machine.ProcessOperation and the master-key handler no call that writes durable state or posts to the board is followed on any path by a step that can still reject the input (a fallible call that is not itself storage I/O), except reviewed steps; " +
+		"(R3) the poller and the airgapped prompt keep running after a failing input: the error of ProcessMessage / of a prompt command reaches no return, and no log.Fatal/os.Exit is reachable from the input handlers; " +
+		"(R4) every FSM callback whose request type has a Validate method reads the request's fields only after Validate returned nil. " +
+		"NOT decided: panics inside dependencies (kyber on malformed points, leveldb, echo, encoding/json), nil dereferences other than map elements and the three payload pointers, resource exhaustion, and everything a fuzzer would search for beyond these shapes."
 	r.Trusted = []string{"go/types, go/ssa, VTA call graph (dynamic calls resolved by type flow)", "net/http recovers a panicking handler goroutine", "dependencies (kyber, leveldb, echo, encoding/json) do not panic on the values passed"}
 	r.Assume = append(r.Assume, "durable state written by the node itself (round dumps, operation pool) is well-formed: the typestate argument covers rounds that reached their state through the transition tables",
 		"the signing-restart pre-handlers of processMessage persist a restarted round before the triggering message is handled; the restart depends on the stored state and the clock, not on the message, and is exempt from R2 (see C07/R3)")
@@ -805,7 +805,10 @@ func premSigningGet(c *Ctx, _ map[string]*fsmx.Machine, s *panicSite) (bool, str
 		n++
 		arg := npath(e.Site.Common().Args[len(e.Site.Common().Args)-1])
 		var edges []ssax.Edge
-		for _, call := range ssax.Calls(cf, false, func(ci ssa.CallInstruction) bool { o := ssax.CalleeObj(ci); return o != nil && o.Name() == "SigningQuorumExists" }) {
+		for _, call := range ssax.Calls(cf, false, func(ci ssa.CallInstruction) bool {
+			o := ssax.CalleeObj(ci)
+			return o != nil && o.Name() == "SigningQuorumExists"
+		}) {
 			if npath(call.Common().Args[len(call.Common().Args)-1]) == arg {
 				edges = append(edges, ssax.BoolEdgesOfCall(cf, call, 0, true)...)
 			}
@@ -941,4 +944,3 @@ func premRecover(c *Ctx, ms map[string]*fsmx.Machine, s *panicSite) (bool, strin
 	}
 	return true, "called only under resp.State == " + st + ", which lies behind the allocating event"
 }
-
